@@ -81,6 +81,12 @@ func deepCopyValue(v any) any {
 		}
 		return l
 	}
+	// typed slices ([]int ...) are arguments a caller may pass too
+	if rv := reflect.ValueOf(v); rv.IsValid() && rv.Kind() == reflect.Slice && !rv.IsNil() {
+		l := reflect.MakeSlice(rv.Type(), rv.Len(), rv.Len())
+		reflect.Copy(l, rv)
+		return l.Interface()
+	}
 	return v
 }
 
@@ -397,17 +403,101 @@ func mutateRecipe(s Src, r *ScopeRecipe) (*ScopeRecipe, string) {
 		}
 		return out, ":same"
 	case 5:
+		// numeric / size ranges that cannot overlap: any bounded int, float, string or map at any depth
+		// below a property (through lists and maps), every nil / non-nil combination on the producer's side
+		type cand struct {
+			t    *TypeRecipe
+			prop int
+		}
+		var cands []cand
+		var walk func(t *TypeRecipe, prop int)
+		walk = func(t *TypeRecipe, prop int) {
+			if t == nil {
+				return
+			}
+			switch t.Kind {
+			case "int", "string", "map":
+				if t.Min != nil || t.Max != nil {
+					cands = append(cands, cand{t, prop})
+				}
+			case "float":
+				if t.FMin != nil || t.FMax != nil {
+					cands = append(cands, cand{t, prop})
+				}
+			}
+			walk(t.Items, prop)
+			walk(t.Keys, prop)
+			walk(t.Values, prop)
+		}
 		for i := range obj.Props {
-			t := &obj.Props[i].T
-			if t.Kind == "int" && t.Max != nil {
-				nm := *t.Max + 10
-				nx := *t.Max + 20
-				t.Min, t.Max = &nm, &nx
-				obj.Props[i].Default = nil
-				return out, mark("range-disjoint")
+			if !obj.Props[i].Disabled {
+				walk(&obj.Props[i].T, i)
 			}
 		}
-		return out, ":same"
+		if len(cands) == 0 {
+			return out, ":same"
+		}
+		c := cands[s.Choose("mu.rangecand", len(cands))]
+		t := c.t
+		both := s.Choose("mu.rangeboth", 2) == 1
+		above := s.Choose("mu.rangeside", 2) == 0
+		sized := t.Kind != "int" && t.Kind != "float"
+		desc := "range-disjoint:" + t.Kind
+		if t.Kind == "float" {
+			if t.FMax == nil || (!above && t.FMin != nil) {
+				// below the consumer's minimum
+				hi := *t.FMin - 1.5
+				lo := hi - 10
+				t.FMin, t.FMax = nil, &hi
+				if both {
+					t.FMin = &lo
+				}
+				desc += ":below"
+			} else {
+				lo := *t.FMax + 1.5
+				hi := lo + 10
+				t.FMin, t.FMax = &lo, nil
+				if both {
+					t.FMax = &hi
+				}
+				desc += ":above"
+			}
+		} else {
+			goBelow := t.Max == nil || (!above && t.Min != nil)
+			if goBelow && sized && *t.Min < 1 {
+				if t.Max == nil {
+					return out, ":same" // no size lies below a minimum of 0
+				}
+				goBelow = false
+			}
+			if goBelow {
+				hi := *t.Min - 1
+				lo := hi - 10
+				if sized && lo < 0 {
+					lo = 0
+				}
+				t.Min, t.Max = nil, &hi
+				if both {
+					t.Min = &lo
+				}
+				desc += ":below"
+			} else {
+				lo := *t.Max + 1
+				hi := lo + 10
+				t.Min, t.Max = &lo, nil
+				if both {
+					t.Max = &hi
+				}
+				desc += ":above"
+			}
+		}
+		if both {
+			desc += ":both-bounds"
+		} else {
+			desc += ":one-bound"
+		}
+		obj.Props[c.prop].Default = nil
+		return out, mark(desc)
 	case 6:
 		for i := range obj.Props {
 			t := &obj.Props[i].T
